@@ -110,6 +110,28 @@ int main(int argc, char ** argv) {
                 mc_viol("c09/unit-state-leaks-into-next-unit", "message [%s;%s]: events [%s]; units alone: [%s] + [%s]", mc_es(units[a]), mc_es(units[b]), mc_es(ev[0]), mc_es(ev[1]), mc_es(ev[2]));
         }
     }
+    /* histories with an input-buffer overrun: [unterminated fragment], a chunk that does not fit (-363, buffer dropped), then B */
+    {
+        static const char * frags[] = {"", "I2 1", "Q1?;AAAA:", "TXT \"ab", "BLK #19abc"};
+        static char big[300];
+        int f;
+        memset(big, 'A', sizeof big);
+        for (f = 0; f < 5; f++) for (b = 0; b < NM; b++) {
+            int bl;
+            if (b >= NU && (b % 5) != 0) continue;
+            if (!MC_CASE()) continue;
+            bl = make_msg(b, mb);
+            mc_case_tag = "overrun-history"; mc_case_s[0] = (const unsigned char *) frags[f]; mc_case_n[0] = strlen(frags[f]); mc_case_s[1] = (const unsigned char *) mb; mc_case_n[1] = (size_t) bl;
+            tc_reinit(&T, mt_cmds); tr_reset();
+            if (frags[f][0]) SCPI_Input(&T.ctx, frags[f], (int) strlen(frags[f]));
+            SCPI_Input(&T.ctx, big, (int) sizeof big);
+            if (T.ctx.buffer.position != 0) { mc_viol("c09/input-not-dropped-after-overrun", "fragment [%s] + %d bytes into a 256 byte buffer: %d bytes still buffered", mc_es(frags[f]), (int) sizeof big, (int) T.ctx.buffer.position); continue; }
+            run_b(mb, bl);
+            n_pairs++; n_nontrivial++;
+            if (TRN != fresh[b].trn || memcmp(TR, fresh[b].tr, TRN) || OUTN != fresh[b].outn || memcmp(OUT, fresh[b].out, OUTN))
+                mc_viol("c09/state-leaks-after-input-overrun", "fragment [%s], overrun, then B [%s]: trace [%s] output [%s]; B on a fresh context: trace [%s] output [%s]", mc_es(frags[f]), mc_e(mb, (size_t) bl), mc_es(TR), mc_e(OUT, OUTN), mc_es(fresh[b].tr), mc_e(fresh[b].out, fresh[b].outn));
+        }
+    }
     /* A and the unterminated B in ONE input call, B executed by a zero-length flush, against B alone + flush (single-unit B) */
     for (a = 0; a < NM; a++) {
         int al = make_msg(a, ma);
